@@ -277,6 +277,24 @@ pub fn check(id: &str, tier: Tier) -> i32 {
             }
         }
         if !got {
+            // a shard that ended with a fatal scheduler verdict (deadlock) reports it on its way out
+            for line in out.lines() {
+                if let Some(j) = line.strip_prefix("FATAL-FAILURE ") {
+                    if let Ok(v) = serde_json::from_str::<Value>(j) {
+                        if let Ok(f) = serde_json::from_value::<Failure>(v["failure"].clone()) {
+                            results.push(ShardResult {
+                                shard: sh,
+                                evaluations: 1,
+                                failure: Some(ShardFailure { bytes_hex: v["bytes_hex"].as_str().unwrap_or("").to_string(), failure: f, shrunk: false }),
+                                ..Default::default()
+                            });
+                            got = true;
+                        }
+                    }
+                }
+            }
+        }
+        if !got {
             inconclusive.push(format!(
                 "shard {} produced no result (status {:?}{})",
                 sh,
@@ -337,6 +355,12 @@ pub fn check(id: &str, tier: Tier) -> i32 {
             if better {
                 best_failure = Some(f.clone());
             }
+        }
+    }
+    if let Some(f) = &best_failure {
+        if f.failure.clause.starts_with("inconclusive") {
+            inconclusive.push(format!("{}: {}", f.failure.clause, f.failure.detail));
+            best_failure = None;
         }
     }
     if let Some(mut f) = best_failure {
